@@ -16,8 +16,8 @@ claimed = {
          "The interleavings of v2's background writer loops are not explored (the property does not quantify over schedules). Hook: /verif/check/hooks/zz_verif_v2.go.in + sed-inserted calls, attached by overlay.",
          "DESIGN.md §4 C20"),
  "C06": ("stateless schedule exploration of the real code under a controlled scheduler (iterative preemption bounding, CHESS style), with the Go race detector active inside every enumerated schedule",
-         "For harnesses of one writer (Set/Remove/SaveVersion/DeleteVersionsTo) and 1-2 readers of committed versions (Get, GetWithIndex, Has, Iterator, GetProof, GetImmutable of the latest version), node cache 0/100, fast index on/off: every schedule with at most 2 (quick) / 3 (thorough) preemptions (one less for the 3-thread harness and for the -race build) over the scheduling points {every Lock/RLock of iavl's mutexes, every storage call} is executed on the real code; every reader result must equal the contents of its version as of its commit, and the race detector must stay silent in every schedule.",
-         "The iavl sources are rebuilt with \"sync\" replaced by a shim (check/vrtsrc) that reports lock operations to the scheduler; the hand-off uses raw futex calls from //go:norace code so that the scheduler adds no happens-before edge. Not covered: export pinning and background pruning (goroutines/channels are not rewritten), > 3 threads.",
+         "Harnesses H1-H8 of one writer (Set/Remove/SaveVersion/DeleteVersionsTo) and 1-2 readers of committed versions (Get, GetWithIndex, Has, Iterator, GetProof, GetImmutable of the latest version and of the version being committed), an exporter (pinning: DeleteVersionsTo vs an open export, synchronous and with the background pruner) and the asynchronous pruning loop (SetCommitting/UnsetCommitting protocol), node cache 0/100, fast index on/off, warm and cold caches: every schedule with at most 2 (quick) / 3 (thorough) preemptions (one less for the 3-thread harnesses and for the -race build) over the scheduling points {every Lock/RLock of iavl's mutexes, every storage call, every channel operation and poll of the rewritten exporter / pruner} is executed on the real code; every reader result must equal the contents of its version as of its commit, a sequential epilogue re-reads every version through every read path, a pinned version must be exported completely and not deleted, and the race detector must stay silent in every schedule.",
+         "The iavl sources are rebuilt with \"sync\" replaced by a shim (check/vrtsrc) that reports lock operations to the scheduler; goroutines and channels of export.go and of the pruning loop in nodedb.go are brought under the scheduler by two site-counting rewriters (a harness whose rewrite does not apply is skipped and named in the evidence); the hand-off uses raw futex calls from //go:norace code so that the scheduler adds no happens-before edge. Not covered: > 3 threads, more preemptions, more than one writer.",
          "DESIGN.md §4 C06"),
  "C16": ("explicit-state exploration of new-format continuations started from legacy-format databases written by the real legacy library (iavl v0.20.0) for an enumerated set of legacy histories incl. every subset of legacy-side deletions",
          "For every enumerated legacy history (1-3 versions, <= 2 writes, every subset of legacy-side DeleteVersion of non-latest versions, legacy fast index on and off; 2418 fixtures in quick) the database written by iavl v0.20.0 opens with every legacy version available with the contents and root hashes the legacy library reported (and the independent reference agrees with them); then every continuation of <= 3 (thorough: 5) steps over {Set, Remove, SaveVersion incl. no-write commits on a legacy root, DeleteVersionsTo below/at/above the boundary, LoadVersionForOverwriting to a legacy version, reopen} keeps every version that must remain readable with its contents and canonical hash, live and after restart.",
@@ -71,9 +71,9 @@ claimed = {
          "For every explored state (empty, committed, working with uncommitted additions/updates/removals, historical versions) and all (start,end,direction) over nil, empty, stored keys, neighbours, prefixes, extensions, outside keys: ImmutableTree.Iterator (walk or persisted index), the explicit walk iterator, MutableTree.Iterator (index + uncommitted changes), IterateRange, IterateRangeInclusive, Iterate yield exactly the model's sequence, end invalid for good, and callbacks that stop at every position stop there.",
          "Bounded: 3 keys x values {x, empty}, <= 3 versions, depth bound in the evidence.",
          "DESIGN.md §4 C08"),
- "C11": ("explicit-state exploration of insert/remove/commit histories; oracle = reference height/size, AVL bound, rank/key inverse, and storage reads counted by the instrumented store",
-         "All histories of inserts/removes/commits over a 7-key set up to the depth bound (plus maintenance histories on 3 keys): Height/Size equal the reference, h <= 1.4405 log2(n+2), GetByIndex/GetWithIndex inverse and sorted (reads oracle), and with cache 0 / index off every Get, Has, GetWithIndex, GetByIndex reads <= 2h+2 stored nodes and GetProof <= 10h+10 (counted by vstore).",
-         "Bounded: <= 8 keys, depth bound in the evidence.",
+ "C11": ("explicit-state exploration of insert/remove/commit histories plus enumerated families of large-tree scenarios; oracle = size of the model, AVL bound, rank/key inverse, and storage reads counted by the instrumented store",
+         "All histories of inserts/removes/commits over a 7-key set up to the depth bound (plus maintenance histories on 3 keys): Size equals the model, h <= 1.4405 log2(n+2), GetByIndex/GetWithIndex inverse and sorted (reads oracle), and with cache 0 / index off every Get, Has, GetWithIndex, GetByIndex reads <= 2h+2 stored nodes and GetProof <= 10h+10 (counted by vstore). Beyond the depth bound: 1500-key trees in 3 insertion orders (every key and gap probed for the read bounds), removal of every key of 256/1500-key trees in 5 orders with the bound checked after every removal, and for every root-to-leaf path of 32/64/256-key trees the removal of everything but a sparse set of survivors along that path.",
+         "Bounded: <= 8 keys in the exhaustive part, depth bound in the evidence; the large scenarios are enumerated families, not all histories. The height is checked against the AVL bound only (shapes belong to C02).",
          "DESIGN.md §4 C11"),
  "C12": ("explicit-state exploration of crash-free histories with synchronous pruning; after every step the raw storage is decoded independently and compared with reachability from the model's retained versions",
          "After every transition of every explored history (commits with/without writes, repeated partial deletions, rollbacks both ways, reopenings, imports): the set of stored node records equals the set reachable from the roots of the retained versions (nothing missing, nothing left behind, root markers only for retained versions), and the persisted fast index equals the latest version's pairs.",
